@@ -278,3 +278,314 @@ Example model_example :
   model (S 4 100 1000 [50; 2] [(100, Err 2); (10, Ok [7]); (10, Ok [8])]) [0; 5; 9]
   = OS (Ok ([0; 2], SOk [7])).
 Proof. vm_compute. reflexivity. Qed.
+
+(* ---------- the result half of the monitor, on the model's own run ---------- *)
+Lemma completions_length timeout ss : forall script, length (completions timeout ss script) = length ss.
+Proof. induction ss as [|s ss IH]; intros script; cbn; [reflexivity|]. now rewrite IH. Qed.
+
+Lemma completions_ge timeout ss : forall script e,
+  In e (completions timeout ss script) -> exists s, In s ss /\ s <= fst e.
+Proof.
+  induction ss as [|s ss IH]; intros script e H; cbn in H; [destruct H|].
+  destruct H as [<-|H].
+  - exists s. split; [now left|cbn; lia].
+  - destruct (IH _ _ H) as (s' & Hs & Hle). exists s'. split; [now right|exact Hle].
+Qed.
+
+Lemma filter_nil {A} (p : A -> bool) l : (forall x, In x l -> p x = false) -> filter p l = [].
+Proof.
+  induction l as [|a l IH]; intros H; [reflexivity|]. cbn. rewrite (H a (or_introl eq_refl)).
+  apply IH. intros x Hx. apply H. now right.
+Qed.
+
+Lemma completions_split timeout D ss : forall script,
+  sorted ss = true ->
+  exists rest, completions timeout ss script =
+               completions timeout (filter (fun s => s <=? D) ss) script ++ rest /\
+               forall e, In e rest -> D < fst e.
+Proof.
+  induction ss as [|s ss IH]; intros script Hs.
+  - exists []. split; [reflexivity|]. intros e [].
+  - destruct (sorted_inv s ss Hs) as [Hs' Hall]. cbn [filter].
+    destruct (N.leb_spec s D) as [Hle|Hgt].
+    + destruct (IH (tl script) Hs') as (rest & E & Hr). exists rest. split; [|exact Hr].
+      cbn [completions]. rewrite E. reflexivity.
+    + rewrite filter_nil.
+      2:{ intros x Hx. specialize (Hall x Hx). lia. }
+      exists (completions timeout (s :: ss) script). split; [reflexivity|].
+      intros e He. apply completions_ge in He as (s' & [<-|Hin] & Hle); [lia|].
+      specialize (Hall s' Hin). lia.
+Qed.
+
+(* first_ok_time *)
+Lemma fot_some cs T : first_ok_time cs = Some T ->
+  (exists v, In (T, Ok v) cs) /\ (forall c v, In (c, Ok v) cs -> T <= c).
+Proof.
+  revert T. induction cs as [|[c o] cs IH]; intros T H; cbn in H; [discriminate|].
+  destruct o as [v|e|].
+  - destruct (first_ok_time cs) as [c'|] eqn:E.
+    + injection H as <-. destruct (IH c' eq_refl) as ((v' & Hin) & Hmin).
+      split.
+      * destruct (N.le_ge_cases c c').
+        -- exists v. left. f_equal. lia.
+        -- exists v'. right. replace (N.min c c') with c' by lia. exact Hin.
+      * intros c0 v0 [[= <- <-]|Hin0]; [lia|]. specialize (Hmin _ _ Hin0). lia.
+    + injection H as <-. split; [exists v; now left|].
+      intros c0 v0 [[= <- <-]|Hin0]; [lia|].
+      exfalso. clear IH. revert E Hin0. clear. induction cs as [|[c1 o1] cs IH]; cbn; [tauto|].
+      destruct o1; try (destruct (first_ok_time cs); discriminate);
+        intros E [Heq|Hin]; try congruence; auto.
+  - destruct (IH T H) as ((v' & Hin) & Hmin). split; [exists v'; now right|].
+    intros c0 v0 [Heq|Hin0]; [congruence|eauto].
+  - destruct (IH T H) as ((v' & Hin) & Hmin). split; [exists v'; now right|].
+    intros c0 v0 [Heq|Hin0]; [congruence|eauto].
+Qed.
+
+Lemma fot_none cs : first_ok_time cs = None -> forall c v, ~ In (c, Ok v) cs.
+Proof.
+  induction cs as [|[c1 o1] cs IH]; cbn; [tauto|].
+  destruct o1; try (destruct (first_ok_time cs); discriminate);
+    intros E c v [Heq|Hin]; try congruence; eapply IH; eauto.
+Qed.
+
+Lemma fot_intro cs T v :
+  In (T, Ok v) cs -> (forall c v', In (c, Ok v') cs -> T <= c) -> first_ok_time cs = Some T.
+Proof.
+  intros Hin Hmin. destruct (first_ok_time cs) as [T'|] eqn:E.
+  - destruct (fot_some cs T' E) as ((v' & Hin') & Hmin').
+    specialize (Hmin _ _ Hin'). specialize (Hmin' _ _ Hin). f_equal. lia.
+  - exfalso. eapply fot_none; eauto.
+Qed.
+
+Lemma fot_none_intro cs : (forall c v, ~ In (c, Ok v) cs) -> first_ok_time cs = None.
+Proof.
+  intros H. destruct (first_ok_time cs) as [T|] eqn:E; [|reflexivity].
+  destruct (fot_some cs T E) as ((v & Hin) & _). exfalso. eapply H; eauto.
+Qed.
+
+(* sorting by a key *)
+Lemma insert_by_sorted {A} (k : A -> N) x l :
+  sorted (map k l) = true -> sorted (map k (insert_by k x l)) = true.
+Proof.
+  induction l as [|a l IH]; intros H; [reflexivity|]. cbn [insert_by].
+  destruct (N.leb_spec (k x) (k a)) as [Hxa|Hxa].
+  - cbn [map]. change (sorted (k x :: k a :: map k l)) with ((k x <=? k a) && sorted (k a :: map k l)).
+    cbn [map] in H. rewrite H. lia.
+  - cbn [map] in *. destruct (sorted_inv _ _ H) as [Hs Hall]. apply sorted_cons; [auto|].
+    intros y Hy. apply in_map_iff in Hy as (z & <- & Hz). apply insert_in in Hz as [->|Hz]; [lia|].
+    apply Hall. now apply in_map.
+Qed.
+
+Lemma sort_by_sorted {A} (k : A -> N) l : sorted (map k (sort_by k l)) = true.
+Proof. induction l as [|a l IH]; [reflexivity|]. cbn. now apply insert_by_sorted. Qed.
+
+Lemma sorted_map_filter {A} (k : A -> N) p l :
+  sorted (map k l) = true -> sorted (map k (filter p l)) = true.
+Proof.
+  induction l as [|a l IH]; intros H; [reflexivity|]. cbn [map] in H.
+  destruct (sorted_inv _ _ H) as [Hs Hall]. cbn [filter].
+  destruct (p a); [|auto]. cbn [map]. apply sorted_cons; [auto|].
+  intros y Hy. apply in_map_iff in Hy as (z & <- & Hz). apply filter_In in Hz as [Hz _].
+  apply Hall. now apply in_map.
+Qed.
+
+Lemma filter_insert_length {A} (k : A -> N) p x l :
+  length (filter p (insert_by k x l)) = length (filter p (x :: l)).
+Proof.
+  induction l as [|a l IH]; [reflexivity|]. cbn [insert_by].
+  destruct (k x <=? k a); [reflexivity|]. cbn [filter] in *.
+  destruct (p a); destruct (p x); cbn [length] in *; rewrite IH; reflexivity.
+Qed.
+
+Lemma filter_sort_length {A} (k : A -> N) p l :
+  length (filter p (sort_by k l)) = length (filter p l).
+Proof.
+  induction l as [|a l IH]; [reflexivity|]. cbn [sort_by fold_right].
+  rewrite filter_insert_length. cbn [filter]. unfold sort_by in IH. destruct (p a); cbn [length]; now rewrite IH.
+Qed.
+
+Lemma filter_all {A} (p : A -> bool) l : length (filter p l) = length l -> filter p l = l.
+Proof.
+  induction l as [|a l IH]; [reflexivity|]. cbn. destruct (p a); cbn; intros H.
+  - f_equal. apply IH. lia.
+  - pose proof (filter_len_le p l). lia.
+Qed.
+
+(* the stagger result of a list sorted by completion time *)
+Definition no_panic (l : list entry) : Prop := forall e, In e l -> snd e <> Panic.
+
+Lemma stagger_sorted_ok l v :
+  sorted (map fst l) = true -> stagger_result (map snd l) = SOk v ->
+  exists c, In (c, Ok v) l /\ forall c' v', In (c', Ok v') l -> c <= c'.
+Proof.
+  induction l as [|[c o] l IH]; intros Hs H; cbn in H; [discriminate|].
+  cbn [map fst] in Hs. destruct (sorted_inv _ _ Hs) as [Hs' Hall].
+  destruct o as [w|e|]; [| |discriminate].
+  - injection H as <-. exists c. split; [now left|].
+    intros c' v' [[= <- _]|Hin]; [lia|]. apply Hall. change c' with (fst (c', Ok v')). now apply in_map.
+  - destruct (stagger_result (map snd l)) as [w|es|] eqn:E; try discriminate. injection H as <-.
+    destruct (IH Hs' eq_refl) as (c0 & Hin & Hmin). exists c0. split; [now right|].
+    intros c' v' [Heq|Hin']; [congruence|eauto].
+Qed.
+
+Lemma stagger_all_err l :
+  no_panic l -> (forall c v, ~ In (c, Ok v) l) ->
+  stagger_result (map snd l) = SErr (map (fun e => err_code (snd e)) l).
+Proof.
+  induction l as [|[c o] l IH]; intros Hp Hn; [reflexivity|]. cbn [map snd stagger_result].
+  destruct o as [w|e|].
+  - exfalso. apply (Hn c w). now left.
+  - rewrite IH; [reflexivity| |].
+    + intros x Hx. apply Hp. now right.
+    + intros c' v' Hin. apply (Hn c' v'). now right.
+  - exfalso. apply (Hp (c, Panic)); [now left|reflexivity].
+Qed.
+
+Lemma stagger_has_ok l c v :
+  no_panic l -> In (c, Ok v) l -> exists w, stagger_result (map snd l) = SOk w.
+Proof.
+  intros Hp Hin.
+  destruct (stagger_result_decided (map snd l)) as [[w E]|[es E]].
+  - apply Forall_forall. intros o Ho. apply in_map_iff in Ho as (e & <- & He). now apply Hp.
+  - eauto.
+  - exfalso. apply all_errors_collected in E.
+    assert (In (Ok v) (map snd l)) by (change (Ok v) with (snd (c, Ok v)); now apply in_map).
+    rewrite E in H. apply in_map_iff in H as (x & Hx & _). discriminate.
+Qed.
+
+Lemma completions_no_panic timeout ss : forall script,
+  forallb (fun e => negb (is_panic (snd e))) script = true ->
+  no_panic (completions timeout ss script).
+Proof.
+  induction ss as [|s ss IH]; intros script Hw e He; cbn in He; [destruct He|].
+  destruct He as [<-|He].
+  - cbn [snd]. unfold eff. destruct (fst (hd default_entry script) <=? timeout); [|discriminate].
+    destruct script as [|[d0 o0] script]; cbn; [discriminate|].
+    cbn in Hw. apply andb_prop in Hw as [Hw _]. intros E. subst o0. discriminate Hw.
+  - eapply IH; [|exact He]. destruct script; [reflexivity|]. cbn in Hw. now apply andb_prop in Hw as [_ Hw].
+Qed.
+
+Lemma combine_map_self {A B C} (g : A -> B) (f : A * B -> C) l :
+  map f (combine l (map g l)) = map (fun x => f (x, g x)) l.
+Proof. induction l as [|a l IH]; cbn; [reflexivity|]. now rewrite IH. Qed.
+
+Lemma app_length_nil {A} (l r : list A) : length (l ++ r) = length l -> r = [].
+Proof. rewrite app_length. destruct r; cbn; [reflexivity|lia]. Qed.
+
+Lemma model_result_ok timeout H script ss :
+  sorted ss = true ->
+  forallb (fun e => negb (is_panic (snd e))) script = true ->
+  let cs := completions timeout ss script in
+  let D := decision_time H cs in
+  result_ok timeout H (length ss) script (filter (fun s => s <=? D) ss) (timed_result H cs) = true.
+Proof.
+  intros Hs Hw cs D.
+  destruct (completions_split timeout D ss script Hs) as (rest & Ecs & Hrest). fold cs in Ecs.
+  set (calls := filter (fun s => s <=? D) ss) in *.
+  unfold result_ok. set (called := completions timeout calls script) in *.
+  set (vis := filter (fun c => fst c <=? H) called).
+  assert (Hnp : no_panic cs) by (apply completions_no_panic; exact Hw).
+  assert (Hlen : length cs = length ss) by apply completions_length.
+  assert (Hlc : length called = length calls) by apply completions_length.
+  assert (Hcalled : forall e, In e called -> In e cs) by (intros e He; rewrite Ecs; apply in_or_app; now left).
+  assert (Hcs : forall e, In e cs -> fst e <= D -> In e called).
+  { intros e He Hle. rewrite Ecs in He. apply in_app_or in He as [He|He]; [exact He|].
+    specialize (Hrest e He). lia. }
+  assert (Hvis : forall e, In e vis <-> In e called /\ fst e <= H).
+  { intros e. unfold vis. rewrite filter_In. split; intros [A B]; split; auto; lia. }
+  set (sc := sort_by fst cs).
+  set (visF := filter (fun c => fst c <=? H) sc).
+  assert (HvisF : forall e, In e visF <-> In e cs /\ fst e <= H).
+  { intros e. unfold visF. rewrite filter_In. unfold sc. rewrite sort_in. split; intros [A B]; split; auto; lia. }
+  assert (HnpF : no_panic visF) by (intros e He; apply Hnp; now apply HvisF in He).
+  assert (HsF : sorted (map fst visF) = true) by (apply sorted_map_filter, sort_by_sorted).
+  assert (HlenF : length visF = length (filter (fun c => fst c <=? H) cs)) by apply filter_sort_length.
+  assert (Hcalls_le : forall s, In s calls -> s <= D).
+  { intros s Hin. apply filter_In in Hin as [_ Hin]. lia. }
+  (* is there a success visible before the horizon? *)
+  assert (Hcase : (exists T v, first_ok_time cs = Some T /\ T <= H /\ D = T /\ In (T, Ok v) cs /\
+                              forall c v', In (c, Ok v') cs -> T <= c) \/
+                  (D = H /\ forall c v, In (c, Ok v) cs -> H < c)).
+  { unfold D, decision_time. destruct (first_ok_time cs) as [T|] eqn:E.
+    - destruct (fot_some cs T E) as ((v & Hin) & Hmin). destruct (N.le_gt_cases T H).
+      + left. exists T, v. repeat split; auto. lia.
+      + right. split; [lia|]. intros c v' Hc. specialize (Hmin _ _ Hc). lia.
+    - right. split; [reflexivity|]. intros c v Hc. exfalso. eapply fot_none; eauto. }
+  destruct Hcase as [(T & v & E & HTH & HDT & HinT & Hmin)|[HDH Hno]].
+  - (* a visible success: the earliest one decides *)
+    assert (Ev : first_ok_time vis = Some T).
+    { apply (fot_intro vis T v).
+      - apply Hvis. split; [apply Hcs; [exact HinT|cbn; lia]|cbn; lia].
+      - intros c v' Hc. apply Hvis in Hc as [Hc _]. apply Hcalled in Hc. eauto. }
+    rewrite Ev.
+    assert (Hall : forallb (fun s => s <=? T) calls = true).
+    { apply forallb_forall. intros s Hin. specialize (Hcalls_le s Hin). lia. }
+    rewrite Hall. cbn [andb].
+    destruct (stagger_has_ok visF T v HnpF ltac:(apply HvisF; split; [exact HinT|cbn; lia])) as [w Ew].
+    destruct (stagger_sorted_ok visF w HsF Ew) as (c & Hc & Hcmin).
+    assert (c = T).
+    { assert (In (T, Ok v) visF) by (apply HvisF; split; [exact HinT|cbn; lia]).
+      specialize (Hcmin _ _ H0). apply HvisF in Hc as [Hc _]. specialize (Hmin _ _ Hc). lia. }
+    subst c. unfold timed_result. fold sc. fold visF. rewrite Ew.
+    apply existsb_exists. exists (T, Ok w). split.
+    + apply Hvis. apply HvisF in Hc as [Hc _]. split; [apply Hcs; [exact Hc|cbn; lia]|cbn; lia].
+    + cbn [fst snd]. rewrite N.eqb_refl. cbn [andb res_eqb]. apply list_eqb_refl, N.eqb_refl.
+  - (* no success before the horizon *)
+    assert (Ev : first_ok_time vis = None).
+    { apply fot_none_intro. intros c v Hc. apply Hvis in Hc as [Hc Hle]. apply Hcalled in Hc.
+      specialize (Hno _ _ Hc). cbn in Hle. lia. }
+    rewrite Ev.
+    assert (EF : stagger_result (map snd visF) = SErr (map (fun e => err_code (snd e)) visF)).
+    { apply stagger_all_err; [exact HnpF|]. intros c v Hc. apply HvisF in Hc as [Hc Hle].
+      specialize (Hno _ _ Hc). cbn in Hle. lia. }
+    unfold timed_result. fold sc. fold visF. rewrite EF.
+    destruct ((length calls =? length ss)%nat && (length vis =? length ss)%nat) eqn:Eall.
+    + apply andb_prop in Eall as [E1 E2]. apply Nat.eqb_eq in E1. apply Nat.eqb_eq in E2.
+      assert (Hrest0 : rest = []).
+      { apply (app_length_nil called rest). rewrite <- Ecs. lia. }
+      assert (Ecc : called = cs) by (rewrite Ecs, Hrest0; now rewrite app_nil_r).
+      assert (Hfull : length visF = length cs).
+      { rewrite HlenF. rewrite <- Ecc. fold vis. lia. }
+      rewrite Hfull, Nat.eqb_refl.
+      assert (EvF : visF = sc).
+      { apply filter_all. fold visF. rewrite Hfull. unfold sc. now rewrite sort_length. }
+      rewrite EvF.
+      match goal with |- context [length (map ?f sc)] =>
+        replace (length (map f sc)) with (length ss)
+          by (rewrite map_length; unfold sc; rewrite sort_length; symmetry; exact Hlen) end.
+      rewrite Nat.eqb_refl. cbn [andb].
+      rewrite Ecc. fold sc.
+      rewrite combine_map_self.
+      apply list_eqb_refl, N.eqb_refl.
+    + assert (Hne : (length visF =? length cs)%nat = false).
+      { apply Nat.eqb_neq. intros Heq. rewrite HlenF in Heq.
+        assert (Hfa : filter (fun c => fst c <=? H) cs = cs) by (now apply filter_all).
+        assert (Hrest0 : rest = []).
+        { destruct rest as [|e rest']; [reflexivity|]. exfalso.
+          assert (In e cs) by (rewrite Ecs; apply in_or_app; right; now left).
+          rewrite <- Hfa in H0. apply filter_In in H0 as [_ Hle]. cbn beta in Hle. specialize (Hrest e (or_introl eq_refl)). lia. }
+        assert (Ecc : called = cs) by (rewrite Ecs, Hrest0; now rewrite app_nil_r).
+        assert (length calls = length ss) by (rewrite <- Hlc, Ecc; exact Hlen).
+        assert (length vis = length ss).
+        { unfold vis. rewrite Ecc, Hfa. exact Hlen. }
+        rewrite H0, H1, !Nat.eqb_refl in Eall. discriminate. }
+      rewrite Hne. apply forallb_forall. intros s Hin. specialize (Hcalls_le s Hin). lia.
+Qed.
+
+Lemma model_monitor_S api timeout H delays script rs :
+  monitor (S api timeout H delays script) (model (S api timeout H delays script) rs) = true.
+Proof.
+  unfold monitor. destruct (wf (S api timeout H delays script)) eqn:W; [|reflexivity]. cbn [negb].
+  cbn [wf] in W. apply andb_prop in W as [W1 W2]. cbn [model].
+  destruct (model_calls_ok timeout H delays script rs W1) as (calls & sr & E & Hc).
+  rewrite E. rewrite Hc. cbn [andb].
+  unfold model_S in E.
+  destruct (jitters_spec (0 :: delays) rs) as (starts & Hj & Hlen & _). rewrite Hj in E.
+  injection E as <- <-.
+  replace (length (all_delays delays)) with (length (sort_by (fun x => x) starts))
+    by (rewrite sort_length; exact Hlen).
+  apply model_result_ok; [apply sort_sorted|exact W2].
+Qed.
+
+Lemma model_monitor i rs : monitor i (model i rs) = true.
+Proof. destruct i; [apply model_monitor_J|apply model_monitor_S]. Qed.
